@@ -443,6 +443,79 @@ var bytesProp = vp.Register(vp.Prop[Case]{
 	},
 })
 
+// ReuseCase feeds a sequence of texts to one reused receiver of every type
+// with Unmarshal methods: callers parse files with one scratch record, and a
+// receiver that already holds a value (or that the caller pre-sized) is
+// within the documented preconditions.
+type ReuseCase struct {
+	Texts  []vp.S `json:"texts"`
+	PreLen int    `json:"pre_len"`
+	PreCap int    `json:"pre_cap"`
+}
+
+func checkReuse(c ReuseCase) error {
+	inflightStart.Store(time.Now().UnixNano())
+	defer inflightStart.Store(0)
+	counts := map[int]bool{}
+	err := call(fmt.Sprintf("reused receivers over %d texts (Record.Names pre-sized len %d cap %d)", len(c.Texts), c.PreLen, c.PreCap), func() {
+		rec := &hostsfile.Record{}
+		if c.PreCap > 0 || c.PreLen > 0 {
+			rec.Names = make([]string, c.PreLen, max(c.PreCap, c.PreLen))
+		}
+		hp, pref, u, uj, d := &netutil.HostPort{}, &netutil.Prefix{}, &urlutil.URL{}, &urlutil.URL{}, new(timeutil.Duration)
+		for _, t := range c.Texts {
+			b := []byte(t)
+			if rerr := rec.UnmarshalText(b); rerr == nil {
+				counts[len(rec.Names)] = true
+				_, _ = rec.MarshalText()
+			} else {
+				e(rerr)
+			}
+			e(hp.UnmarshalText(b))
+			_ = hp.String()
+			e(pref.UnmarshalText(b))
+			_, _ = pref.MarshalText()
+			e(u.UnmarshalText(b))
+			_, _ = u.MarshalText()
+			e(uj.UnmarshalJSON(b))
+			_, _ = uj.MarshalText()
+			e(d.UnmarshalText(b))
+			_ = d.String()
+		}
+	})
+	vp.Class("reuse")
+	if len(counts) >= 2 {
+		vp.Class("reuse:records-with-different-name-counts")
+		vp.NonTrivialStr("c01.reuse", fmt.Sprint(c))
+		vp.Sample("reuse", c)
+	}
+	return err
+}
+
+var reuseProp = vp.Register(vp.Prop[ReuseCase]{
+	Kind: "c01.reuse",
+	Base: 15000,
+	Gen: func(t *rapid.T) ReuseCase {
+		c := ReuseCase{PreLen: rapid.IntRange(0, 3).Draw(t, "prelen"), PreCap: rapid.IntRange(0, 9).Draw(t, "precap")}
+		n := rapid.IntRange(2, 6).Draw(t, "n")
+		for i := 0; i < n; i++ {
+			switch rapid.IntRange(0, 3).Draw(t, "kind") {
+			case 0:
+				c.Texts = append(c.Texts, vp.S(gen.AnyText().Draw(t, "text")))
+			case 1:
+				k := rapid.IntRange(1, 10).Draw(t, "names")
+				c.Texts = append(c.Texts, vp.S("10.0.0.1"+strings.Repeat(" h.example", k)))
+			default:
+				c.Texts = append(c.Texts, vp.S(gen.HostsLine().Draw(t, "line")))
+			}
+		}
+		return c
+	},
+	Check: checkReuse,
+})
+
+func TestReuse(t *testing.T) { vp.Run(t, reuseProp) }
+
 // TestDictionary runs every hostile constant (and every pair with a few
 // second arguments) through the registry.
 func TestDictionary(t *testing.T) {
